@@ -376,3 +376,11 @@ func OnIntn(f func(n int) int) {}
 // OnRandBytes lets a harness supply the bytes csrand.Bytes returns under the solver
 // (natively they come from the recorded tape).
 func OnRandBytes(f func(n int) []byte) {}
+
+// File-system model interface (solver only; natively the real file system is used and
+// no crash can be injected).
+func FSSteps() int                  { return 0 }
+func FSExists(path string) bool     { _, err := os.Stat(path); return err == nil }
+func FSPerm(path string) int        { return 0o600 }
+func CrashAt(step int, torn bool)   {}
+func RunUntilCrash(f func()) bool   { f(); return false }
